@@ -1,6 +1,7 @@
 (* LbfgsMasked.v — apply_masked over R (C09): on the index set J the masked two loops compute the BFGS
-   operator of the J-restricted pairs (ρ recomputed on J, pairs failing the documented test on J skipped,
-   initial scaling from the most recent valid pair when none is given); off J the vector is untouched.
+   operator of the J-restricted pairs (ρ recomputed on J in a local in both loops, pairs failing the documented
+   test on J marked through the workspace α and skipped, initial scaling from the most recent valid pair when
+   none is given); off J the vector is untouched; the stored (s, y, ρ) are not written.
    Also: scale_y on the dense model. *)
 From Coq Require Import Reals List ZArith Bool Arith Lia Lra Psatz.
 From Flocq Require Import Raux.
@@ -13,7 +14,7 @@ Lemma scale_y_dense (P : params R) st f : inv P st ->
   inv P (scale_y st f) /\ hist3 (scale_y st f) = map (scale3 f) (hist3 st) /\ (rho_ok st -> rho_ok (scale_y st f)).
 Proof.
   intros Hinv. destruct (scale_y_spec P st f Hinv) as [Hi Hh]. split; [exact Hi|]. split; [exact Hh|].
-  intros Hr. exact (step_rho_ok (fun _ _ => 0) P st (OScale f) Hinv Hr I).
+  intros Hr. exact (step_rho_ok (fun _ _ => 0) P st (OScale f) Hinv Hr).
 Qed.
 
 (* ---------------------------------------------------------------- restriction to an index list *)
@@ -176,13 +177,12 @@ Section Ops.
   Definition rp (sl : slot R) : pair R := (restr J (sl_s sl), restr J (sl_y sl)).
   Definition lens (sl : slot R) : Prop := length (sl_s sl) = n /\ length (sl_y sl) = n.
 
-  Lemma get_set_ρα st i r a : (i < history st)%nat ->
-    get (set_α (set_ρ st i r) i a) i = {| sl_s := sl_s (get st i); sl_y := sl_y (get st i); sl_ρ := r; sl_α := a |}.
-  Proof.
-    intros Hi. unfold set_α. rewrite get_set_slot_same.
-    - unfold set_ρ. rewrite get_set_slot_same by exact Hi. reflexivity.
-    - destruct (set_ρ_shape st i r) as (_ & _ & _ & Hh). rewrite Hh. exact Hi.
-  Qed.
+  Lemma get_set_α_same st i a : (i < history st)%nat ->
+    get (set_α st i a) i = {| sl_s := sl_s (get st i); sl_y := sl_y (get st i); sl_ρ := sl_ρ (get st i); sl_α := a; sl_skip := false |}.
+  Proof. intros Hi. unfold set_α. apply get_set_slot_same; exact Hi. Qed.
+  Lemma get_set_mark_same st i : (i < history st)%nat ->
+    get (set_mark st i) i = {| sl_s := sl_s (get st i); sl_y := sl_y (get st i); sl_ρ := sl_ρ (get st i); sl_α := Lbfgs.nan; sl_skip := true |}.
+  Proof. intros Hi. unfold set_mark. apply get_set_slot_same; exact Hi. Qed.
 
   Lemma mrev_loop_frame l : forall st q γ j, ~ In j l -> get (fst (fst (mrev_loop pw P J fJ l st q γ))) j = get st j.
   Proof.
@@ -190,12 +190,12 @@ Section Ops.
     assert (Hij : i <> j) by (intros ->; apply Hn; left; reflexivity).
     assert (Hn' : ~ In j l) by (intro; apply Hn; right; assumption).
     destruct (negb _); rewrite IH by exact Hn'.
-    - unfold set_ρ. apply get_set_slot_other; exact Hij.
-    - unfold set_α. rewrite get_set_slot_other by exact Hij. unfold set_ρ. apply get_set_slot_other; exact Hij.
+    - unfold set_mark. apply get_set_slot_other; exact Hij.
+    - unfold set_α. apply get_set_slot_other; exact Hij.
   Qed.
 
   Lemma mfwd_loop_app l1 l2 st q : mfwd_loop J fJ (l1 ++ l2) st q = mfwd_loop J fJ l2 st (mfwd_loop J fJ l1 st q).
-  Proof. revert q; induction l1 as [|i l1 IH]; intros q; cbn [app mfwd_loop]; [reflexivity|]. destruct (ρ_is_nan _); apply IH. Qed.
+  Proof. revert q; induction l1 as [|i l1 IH]; intros q; cbn [app mfwd_loop]; [reflexivity|]. destruct (α_is_nan _); apply IH. Qed.
 
   Lemma map_rp_ext st st' l : (forall j, sy (get st' j) = sy (get st j)) -> map (fun i => rp (get st' i)) l = map (fun i => rp (get st i)) l.
   Proof.
@@ -226,40 +226,40 @@ Section Ops.
       set (sJ := restr J (sl_s (get st i))). set (yJ := restr J (sl_y (get st i))).
       change (@n0 R NumR) with 0.
       destruct (negb (update_valid pw P (rdot sJ yJ) (rdot sJ sJ) 0)) eqn:Hval.
-      + (* pair invalid on J: NaN mark, skipped by both loops *)
-        set (st' := set_ρ st i None).
-        assert (Hsy' : forall j, sy (get st' j) = sy (get st j)) by (intros; apply sy_set_ρ).
+      + (* pair invalid on J: NaN mark in α, skipped by both loops *)
+        set (st' := set_mark st i).
+        assert (Hsy' : forall j, sy (get st' j) = sy (get st j)) by (intros; apply sy_set_mark).
         specialize (IH st' q γ Hnd').
         destruct (mrev_loop pw P J fJ l st' q γ) as [[st1 q1] γ1] eqn:Hm.
         rewrite (map_rp_ext st st' l Hsy') in IH.
         destruct IH as (Hoff & Hneg & Hpos).
-        { intros j Hj. destruct (set_ρ_shape st i None) as (_ & _ & _ & Hh). fold st' in Hh. rewrite Hh. apply Hb; right; exact Hj. }
+        { intros j Hj. destruct (set_mark_shape st i) as (_ & _ & _ & Hh). fold st' in Hh. rewrite Hh. apply Hb; right; exact Hj. }
         { exact Hq. }
         { intros j Hj. specialize (Hsy' j). unfold sy in Hsy'. injection Hsy' as E1 E2. unfold lens. rewrite E1, E2. apply Hlen; right; exact Hj. }
         split; [exact Hoff|]. split; [exact Hneg|]. intros Hg. destruct (Hpos Hg) as (Hok & Hqf). split; [exact Hok|].
         cbn zeta in *. cbn [rev]. rewrite mfwd_loop_app. cbn [mfwd_loop].
         assert (Hgi : get st1 i = get st' i).
         { pose proof (mrev_loop_frame l st' q γ i Hni) as Hx. rewrite Hm in Hx. exact Hx. }
-        rewrite Hgi. unfold st', set_ρ. rewrite get_set_slot_same by exact Hih. cbn [sl_ρ ρ_is_nan]. exact Hqf.
+        rewrite Hgi. unfold st'. rewrite get_set_mark_same by exact Hih. unfold α_is_nan. cbn [sl_skip orb]. exact Hqf.
       + (* pair valid on J *)
         set (ρ := 1 / rdot sJ yJ).
         change (@n1 R NumR) with 1. change (@ndiv R NumR) with Rdiv. change (@nmul R NumR) with Rmult. change (@nltb R NumR) with Rlt_bool.
         rewrite (dotJ_restr (sl_s (get st i)) q Hsi Hq), (dotJ_restr (sl_y (get st i)) (sl_y (get st i)) Hyi Hyi).
         fold sJ yJ ρ.
         set (a := ρ * rdot sJ (restr J q)).
-        set (st' := set_α (set_ρ st i (Some ρ)) i a).
+        set (st' := set_α st i a).
         set (q' := axmyJ J fJ a (sl_y (get st i)) q).
         set (γ' := if Rlt_bool γ 0 then 1 / (ρ * rdot yJ yJ) else γ).
         destruct (axmyJ_restr a (sl_y (get st i)) q Hyi Hq) as [Hoff' Hr']. fold q' yJ in Hoff', Hr'.
         assert (Hq' : length q' = n) by (destruct Hoff' as [Hl _]; congruence).
-        assert (Hsy' : forall j, sy (get st' j) = sy (get st j)) by (intros; unfold st'; rewrite sy_set_α; apply sy_set_ρ).
+        assert (Hsy' : forall j, sy (get st' j) = sy (get st j)) by (intros; unfold st'; apply sy_set_α).
         specialize (IH st' q' γ' Hnd').
         destruct (mrev_loop pw P J fJ l st' q' γ') as [[st1 q1] γ1] eqn:Hm.
         rewrite (map_rp_ext st st' l Hsy'), Hr' in IH.
         destruct IH as (Hoff & Hneg & Hpos).
         { intros j Hj. unfold st'.
-          destruct (set_α_shape (set_ρ st i (Some ρ)) i a) as (_ & _ & _ & Hh1). destruct (set_ρ_shape st i (Some ρ)) as (_ & _ & _ & Hh2).
-          rewrite Hh1, Hh2. apply Hb; right; exact Hj. }
+          destruct (set_α_shape st i a) as (_ & _ & _ & Hh1).
+          rewrite Hh1. apply Hb; right; exact Hj. }
         { exact Hq'. }
         { intros j Hj. specialize (Hsy' j). unfold sy in Hsy'. injection Hsy' as E1 E2. unfold lens. rewrite E1, E2. apply Hlen; right; exact Hj. }
         destruct (MTL (map (fun i0 => rp (get st i0)) l) γ' (raxmy a yJ (restr J q))) as [ok r] eqn:HM. cbn [fst snd] in *.
@@ -269,11 +269,14 @@ Section Ops.
           cbn zeta in *. destruct Hqf as [Hqoff Hqr]. cbn [rev]. rewrite mfwd_loop_app. cbn [mfwd_loop].
           assert (Hgi : get st1 i = get st' i).
           { pose proof (mrev_loop_frame l st' q' γ' i Hni) as Hx. rewrite Hm in Hx. exact Hx. }
-          rewrite Hgi. unfold st'. rewrite get_set_ρα by exact Hih. cbn [sl_ρ sl_s sl_y sl_α ρ_is_nan ρval].
-          change (@nisnan R NumR ρ) with false. cbv iota.
+          rewrite Hgi. unfold st'. rewrite get_set_α_same by exact Hih. unfold α_is_nan. cbn [sl_ρ sl_s sl_y sl_α sl_skip orb].
+          change (@nisnan R NumR a) with false. cbv iota.
           set (qf' := mfwd_loop J fJ (rev l) st1 (scalJ J fJ γ1 q1)) in *.
           assert (Hqf' : length qf' = n) by (destruct Hqoff as [Hl _]; congruence).
+          change (@n1 R NumR) with 1. change (@ndiv R NumR) with Rdiv.
           change (@nmul R NumR) with Rmult. change (@nsub R NumR) with Rminus.
+          (* the second loop recomputes the restricted ρ from the same dot product *)
+          rewrite (dotJ_restr (sl_s (get st i)) (sl_y (get st i)) Hsi Hyi). fold sJ yJ ρ.
           rewrite (dotJ_restr (sl_y (get st i)) qf' Hyi Hqf'). fold yJ. rewrite Hqr.
           destruct (axmyJ_restr (ρ * rdot yJ r - a) (sl_s (get st i)) qf' Hsi Hqf') as [Hoff2 Hr2].
           split.
@@ -286,7 +289,7 @@ End Ops.
 Definition masked_plan (pw : R -> R -> R) (P : params R) (J : list nat) (slots_newest_first : list (slot R)) (γ : R) :=
   plan pw P (map (rp J) slots_newest_first) γ.
 
-Theorem apply_masked_restricted (pw : R -> R -> R) (P : params R) st q γ J :
+Lemma apply_masked_restricted_q (pw : R -> R -> R) (P : params R) st q γ J :
   inv P st -> is_empty st = false -> cbfgs_on P = false ->
   NoDup J -> (forall j, In j J -> (j < length q)%nat) ->
   (length J = length q -> J = seq 0 (length q)) ->
@@ -326,6 +329,27 @@ Proof.
     rewrite rev_idx_is_rev_fwd, rev_involutive in Ho, Hl, Hr.
     split; [exact Ho|]. split; [exact Hl|].
     rewrite Hok in Hfst. subst ok. split; [reflexivity|]. rewrite Hr. apply Hsnd. reflexivity.
+Qed.
+
+(* the same, together with what apply_masked does NOT do: the stored history, its ρ included, is unchanged *)
+Theorem apply_masked_restricted (pw : R -> R -> R) (P : params R) st q γ J :
+  inv P st -> is_empty st = false -> cbfgs_on P = false ->
+  NoDup J -> (forall j, In j J -> (j < length q)%nat) ->
+  (length J = length q -> J = seq 0 (length q)) ->
+  (forall sl, In sl (hist st) -> length (sl_s sl) = length q /\ length (sl_y sl) = length q) ->
+  let r := apply_masked pw P st q γ J in
+  let '(kept, γ', ok) := masked_plan pw P J (rev (hist st)) (if p_curvature P then -1 else γ) in
+  (hist3 (snd r) = hist3 st /\ (forall j, sl_ρ (get (snd r) j) = sl_ρ (get st j)) /\ (rho_ok st -> rho_ok (snd r))) /\
+  (forall j, ~ In j J -> nth j (snd (fst r)) 0 = nth j q 0) /\
+  length (snd (fst r)) = length q /\
+  if ok then fst (fst r) = MRet true /\ restr J (snd (fst r)) = Hop kept γ' (restr J q)
+  else fst (fst r) = MRet false.
+Proof.
+  intros Hinv He Hcb Hnd Hb Hfull Hlen. cbn zeta.
+  pose proof (apply_masked_restricted_q pw P st q γ J Hinv He Hcb Hnd Hb Hfull Hlen) as Hq. cbn zeta in Hq.
+  pose proof (apply_masked_keeps_history pw P st q γ J) as (Hh & Hg & _ & Hr). cbn zeta in Hh, Hg, Hr.
+  destruct (masked_plan pw P J (rev (hist st)) (if p_curvature P then -1 else γ)) as [[kept γ'] ok].
+  split; [|exact Hq]. split; [exact Hh|]. split; [|exact Hr]. intros j. apply (Hg j).
 Qed.
 
 (* ---------------------------------------------------------------- positive curvature is an invariant of the history
